@@ -327,6 +327,12 @@ class OpsMixin(object):
           else:
             out.append((s, VBool(z3.Or(*oks) if oks else z3.BoolVal(False))))
         return out
+      if op in ('==', '!=') and isinstance(a, (VVal, VNone, VBool, VInt, VStr, VBytes, VEnum)) and \
+         isinstance(b, (VVal, VNone, VBool, VInt, VStr, VBytes, VEnum)):
+        # equality of values of unknown type: structural equality in the universal sort (int/float cross-type
+        # equality such as 1 == 1.0 is not covered: floats are excluded above)
+        eq = self.to_val(st, a) == self.to_val(st, b)
+        return [(st, VBool(eq if op == '==' else z3.Not(eq)))]
     out = []
     for s1, ra in self.resolve(st, a):
       for s2, rb in self.resolve(s1, b):
@@ -567,6 +573,17 @@ class OpsMixin(object):
   def bitop(self, st, op, a, b):
     """Bit operations on non-negative ints below 2^32 via bit-vectors (range is a safety obligation)."""
     lim = 2**32
+    if op == '&':
+      m = z3.simplify(b)
+      if z3.is_int_value(m) and m.as_long() > 0 and (m.as_long() + 1) & m.as_long() == 0:
+        # x & (2^k - 1) == x mod 2^k (python's & on negative ints follows two's complement, and so does mod)
+        return VInt(a % (m.as_long() + 1))
+    if op == '^':
+      m = z3.simplify(b)
+      if z3.is_int_value(m) and m.as_long() > 0 and (m.as_long() + 1) & m.as_long() == 0:
+        # x ^ (2^k - 1) == (2^k - 1) - x  for 0 <= x < 2^k
+        self.safety(st, z3.And(a >= 0, a <= m.as_long()), 'bitrange', 'left operand of ^ within the mask')
+        return VInt(m.as_long() - a)
     self.safety(st, z3.And(a >= 0, a < lim), 'bitrange', 'left operand of %s within 0..2^32-1' % op)
     if op in ('<<', '>>'):
       n = z3.simplify(b)
